@@ -682,7 +682,16 @@ def run(ck):
     ub = next((f for f in L.fn_list if f['path'].endswith('uigen::binding::UiSupportCode::build')), None)
     if ub is not None:
         lp = next((n for n in walk(ub['body']) if n.get('k') == 'For' and 'flat_iter()' in pp(n['iter'], maxlen=200)), None)
-        skips = [x['k'] for x in walk(lp['body'], enter_closures=False) if x.get('k') in ('Continue', 'Break')] if lp else ['no loop']
+        # exits of the object loop itself: a `continue` that belongs to a nested loop (over the bindings of one object) skips a binding,
+        # not an object — that is judged by the None => diagnosed analysis (loop units)
+        def of_outer(x):
+            for a in H.ancestors(ub, x):
+                if a is lp:
+                    return True
+                if a.get('k') in ('For', 'Loop', 'Closure'):
+                    return False
+            return False
+        skips = [x['k'] for x in walk(lp['body'], enter_closures=False) if x.get('k') in ('Continue', 'Break') and of_outer(x)] if lp else ['no loop']
         filt = [m.get('m') for m in walk(lp['iter']) if m.get('k') == 'MCall' and m.get('m') in ('filter', 'skip', 'take', 'step_by', 'skip_while', 'take_while', 'filter_map')] if lp else []
         ck.ob('R4.1d', 'support-pass-visits-every-object', not skips and not filt, L.loc(lp) if lp else L.loc(ub['body']),
               'for (obj_node, code_map) in all objects: no object is skipped' if not skips and not filt else
